@@ -3472,7 +3472,7 @@ fn drive_bump_mixed(a: &Args, name: &str) -> Value {
     tr.max_events = 2500;
     let rng0 = Rng::new(a.seed);
     let (mut nev, mut runs) = (0usize, 0usize);
-    let nruns = if a.thorough() { 150 } else { 22 };
+    let nruns = if a.thorough() { 150 } else { 14 };
     for run in 0..nruns {
         let mut rng = rng0.derive(&format!("{name}/{run}"));
         let k = if run % 4 == 3 { rng.range(4, 6) as usize } else { 3 };
